@@ -459,10 +459,11 @@ package server
 // Prefix mode (fuzzy matching off): exactly the items whose label starts with the query, case-insensitively, in their order.
 //@ func filterByPrefix
 //@   props C16 C06
+//@   ensures [fresh] len(result) == 0 || fresh(result)
 //@   ensures [C16:prefix_len] len(result) == fltP(items, len(items), tolower(query))
 //@   ensures [C16:prefix_sound] forall k int :: 0 <= k && k < len(result) ==> keepP(result[k].item, tolower(query)) && result[k].score == 1000
 //@   ensures [C16:prefix_complete] forall j int :: {items[j]} 0 <= j && j < len(items) && keepP(items[j], tolower(query)) ==> result[fltP(items, j, tolower(query))].item == items[j]
-//@   loop 1 invariant 0 - 1 <= rangeindex && rangeindex <= len(items) - 1 && queryLower == tolower(query) && len(result) == fltP(items, rangeindex + 1, queryLower)
+//@   loop 1 invariant 0 - 1 <= rangeindex && rangeindex <= len(items) - 1 && queryLower == tolower(query) && len(result) == fltP(items, rangeindex + 1, queryLower) && (len(result) == 0 || fresh(result))
 //@   loop 1 invariant forall k int :: 0 <= k && k < len(result) ==> keepP(result[k].item, queryLower) && result[k].score == 1000
 //@   loop 1 invariant forall j int :: {items[j]} 0 <= j && j <= rangeindex && keepP(items[j], queryLower) ==> result[fltP(items, j, queryLower)].item == items[j]
 
@@ -477,11 +478,12 @@ package server
 //@ func filterAndScoreFuzzyMatch
 //@   props C16 C06
 //@   ensures [C16:empty_keeps_all] query == "" ==> len(result) == len(items) && (forall k int :: 0 <= k && k < len(items) ==> result[k].item == items[k] && result[k].score == 1000)
+//@   ensures [fresh] len(result) == 0 || fresh(result)
 //@   ensures [C16:kept_match] forall k int :: 0 <= k && k < len(result) ==> result[k].score > 0
 //@   ensures [C16:prefix_mode] query != "" && !fuzzyEnabled ==> len(result) == fltP(items, len(items), tolower(query)) && (forall j int :: {items[j]} 0 <= j && j < len(items) && keepP(items[j], tolower(query)) ==> result[fltP(items, j, tolower(query))].item == items[j])
 //@   loop 1 invariant 0 - 1 <= rangeindex && rangeindex <= len(items) - 1 && len(result) == len(items) && fresh(result)
 //@   loop 1 invariant forall k int :: 0 <= k && k <= rangeindex ==> result[k].item == items[k] && result[k].score == 1000
-//@   loop 2 invariant 0 - 1 <= rangeindex
+//@   loop 2 invariant 0 - 1 <= rangeindex && (len(result__1) == 0 || fresh(result__1))
 //@   loop 2 invariant forall k int :: 0 <= k && k < len(result) ==> result[k].score > 0
 
 // ---- completion byte helpers (C06: every index and slice in bounds) and the edit range of an item (C08/C16) ----
@@ -536,8 +538,19 @@ package server
 // No precondition: total on every content and position (the byte column may lie past the line for ill-formed UTF-8).
 //@ func extractQueryText
 //@   props C06 C16
-//@ trusted rankCompletionItemsByScore
-//@   ensures len(result) == len(scored) && (fresh(result) || len(result) == 0)
+// Ranking: the scored items are sorted in place (sort.Slice: some permutation, the comparator - score, then frequency - is
+// not executed) and copied out one for one: as many items as candidates, the k-th item is the k-th scored candidate with
+// its label kept, and every item carries the typed fragment as its filter text. Which candidate comes first is the
+// comparator's business and is not decided here.
+//@ func rankCompletionItemsByScore
+//@   props C16 C06
+//@   ensures [C16:one_item_per_candidate] len(result) == len(scored) && (fresh(result) || len(result) == 0)
+//@   ensures [C16:labels_kept] forall k int :: {result[k]} 0 <= k && k < len(result) ==> result[k].Label == scored[k].item.Label && result[k].FilterText == query
+//@   modifies elems(scored)
+//@   loop 1 invariant 0 - 1 <= rangeindex && rangeindex <= len(scored) - 1 && len(items) == len(scored) && (fresh(items) || len(items) == 0)
+//@   loop 1 invariant [C16:labels_kept] forall k int :: {items[k]} 0 <= k && k <= rangeindex ==> items[k].Label == scored[k].item.Label && items[k].FilterText == query
+//@   loop 1 exhaustive
+//@   loop 1 decreases len(scored) - rangeindex
 
 //@ func (*Server).Completion
 //@   props C16 C06
